@@ -199,3 +199,72 @@ Proof.
   rewrite matrix_get_matrix_card_size_translated by assumption.
   destruct (N.of_nat (length data) =? get_matrix_card_size d h w); reflexivity.
 Qed.
+
+(* ---- MatrixCard::to_printer and MatrixCardPrinter::next (the strings a user reads off the card), translated:
+   `chunks(digit_count)` as (rest, n), each byte appended as its decimal `to_string()` ---- *)
+Lemma u8_to_string_model : forall b, StepLoop.u8_to_string b = MatrixCard.u8_to_string b.
+Proof. reflexivity. Qed.
+
+Definition str_body : list N -> N -> option (((list N * N) * option (list N)) + list N) :=
+  fun v_s v_b => let v_s := (v_s ++ (StepLoop.u8_to_string v_b)) in Some (inr v_s).
+
+Lemma str_loop : forall bytes acc, for_loop str_body acc bytes = Some (inr (acc ++ print_cell bytes)).
+Proof.
+  induction bytes as [|b r IH]; intros acc; cbn [for_loop].
+  - unfold print_cell. cbn [map concat]. now rewrite app_nil_r.
+  - unfold str_body at 1. cbv zeta. rewrite IH. unfold print_cell. cbn [map concat].
+    rewrite u8_to_string_model, app_assoc. reflexivity.
+Qed.
+
+Lemma matrix_printer_next_spec : forall l n,
+  tr_matrix_printer_next (l, n)
+  = Some ((skipn (N.to_nat n) l, n), match l with [] => None | _ :: _ => Some (print_cell (firstn (N.to_nat n) l)) end).
+Proof.
+  intros l n. unfold tr_matrix_printer_next, chunks_advance, chunks_head. cbn [fst snd]. cbv zeta.
+  destruct l as [|x r]; [reflexivity|].
+  match goal with |- context [for_loop ?f _ _] => change f with str_body end.
+  rewrite str_loop. reflexivity.
+Qed.
+
+Fixpoint drain (fuel : nat) (st : list N * N) : option (list (list N)) :=
+  match fuel with
+  | O => Some []
+  | S f => match tr_matrix_printer_next st with
+           | None => None
+           | Some (_, None) => Some []
+           | Some (st', Some s) => match drain f st' with Some r => Some (s :: r) | None => None end
+           end
+  end.
+
+Lemma drain_S : forall f st, drain (S f) st =
+  match tr_matrix_printer_next st with
+  | None => None
+  | Some (_, None) => Some []
+  | Some (st', Some s) => match drain f st' with Some r => Some (s :: r) | None => None end
+  end.
+Proof. reflexivity. Qed.
+
+Lemma drain_chunks : forall fuel l n, (1 <= N.to_nat n)%nat -> (length l <= fuel)%nat ->
+  drain (S fuel) (l, n) = Some (map print_cell (chunks_fuel fuel (N.to_nat n) l)).
+Proof.
+  induction fuel as [|fuel IH]; intros l n Hn Hl.
+  - destruct l; [|cbn [length] in Hl; lia]. rewrite drain_S, matrix_printer_next_spec. reflexivity.
+  - rewrite drain_S, matrix_printer_next_spec. destruct l as [|x r]; [reflexivity|].
+    rewrite IH.
+    + reflexivity.
+    + exact Hn.
+    + rewrite skipn_length. cbn [length] in *. lia.
+Qed.
+
+(* property level: the translated printer, drained, yields exactly the model's printed strings, cell by cell;
+   digit_count = 0 is the known finding F5 (chunks(0) panics) *)
+Theorem matrix_source_printer : forall c, 1 <= c_digits c ->
+  exists st, tr_matrix_to_printer (c_digits c) (c_width c) (c_height c) (c_data c) = Some st /\
+             printer_strings c = Ok (match drain (S (length (c_data c))) st with Some r => r | None => [] end) /\
+             drain (S (length (c_data c))) st <> None.
+Proof.
+  intros c Hd. exists (c_data c, c_digits c). unfold tr_matrix_to_printer.
+  destruct (c_digits c =? 0) eqn:E; [lia|]. split; [reflexivity|].
+  rewrite drain_chunks by lia. split; [|discriminate].
+  unfold printer_strings, printer_cells, chunks. rewrite E. reflexivity.
+Qed.
